@@ -128,6 +128,19 @@ Theorem T10_chunks_lossless : forall first cmax data ch,
 Proof. exact split_chunks_concat. Qed.
 Print Assumptions T10_chunks_lossless.
 
+(* The wire form of a released DATA frame, for EVERY max frame size recorded at release (the repair 46c7d86
+   splits a queued DATA frame again when the receiver lowered MAX_FRAME_SIZE in the meantime): only DATA frames
+   of the same stream, payloads concatenating to the queued octets, END_STREAM (the queued value) on the last
+   piece and on no other.  With T10_fidelity (queue level) this gives "same concatenated DATA bytes, END_STREAM
+   on the same element" on the wire. *)
+Theorem T10_wire_data : forall id es d m,
+  let ws := send (QDataP id es d m) in
+  concat (map data_of ws) = d /\
+  Forall (fun w => is_wdata w = true /\ w_id w = id) ws /\
+  exists k, map ends_stream ws = repeat false k ++ [es].
+Proof. exact send_data_wire. Qed.
+Print Assumptions T10_wire_data.
+
 (* HPACK is stateful: the receiver can only decode header blocks in the order the relay's encoder produced
    them.  Whatever one relay writes during a step - frames of any streams released in any order, encoder
    resizes in between - the header blocks on the wire, in wire order, are exactly the successive outputs of
